@@ -16,6 +16,13 @@ pub struct Model {
     pub kind: Kind,
     pub l: usize,
     insigma: [bool; 256],
+    /// bit-parallel form of the active set (used when patterns x max length
+    /// fits into 128 bits): bit i*l + k <=> the last k bytes equal the first
+    /// k bytes of pattern i (1 <= k < |P_i|)
+    small: bool,
+    eq: Vec<u128>,
+    seeds: u128,
+    valid: u128,
 }
 
 #[derive(Debug, Clone)]
@@ -39,7 +46,27 @@ impl Model {
         }
         let spec = Spec::new(pats, ci);
         let l = spec.maxlen();
-        Model { spec, kind, l, insigma }
+        let small = l >= 1 && spec.pats.len() * l <= 128;
+        let mut eq = vec![0u128; if small { 256 } else { 0 }];
+        let (mut seeds, mut valid) = (0u128, 0u128);
+        if small {
+            for (i, p) in spec.pats.iter().enumerate() {
+                if p.len() >= 2 {
+                    seeds |= 1u128 << (i * l);
+                }
+                for k in 0..p.len() {
+                    if k >= 1 {
+                        valid |= 1u128 << (i * l + k);
+                    }
+                    for b in 0..=255u8 {
+                        if fold(p[k], ci) == fold(b, ci) {
+                            eq[b as usize] |= 1u128 << (i * l + k);
+                        }
+                    }
+                }
+            }
+        }
+        Model { spec, kind, l, insigma, small, eq, seeds, valid }
     }
     /// Abstract symbol of a byte: its folded value if it occurs in a pattern
     /// (or is the opposite case of one under folding), else bottom (256).
@@ -59,7 +86,12 @@ impl Model {
     /// with the same active set have the same future occurrences, so it is a
     /// right congruence for SPEC (together with the normalised verdict).
     pub fn active_step(&self, act: &Active, b: u8, anchored: bool, consumed: usize) -> Active {
-        let mut out: Active = Vec::with_capacity(act.len() + 2);
+        if self.small {
+            let cand = act.bits | if !anchored || consumed == 0 { self.seeds } else { 0 };
+            return Active { bits: ((cand & self.eq[b as usize]) << 1) & self.valid, big: Vec::new() };
+        }
+        let act = &act.big;
+        let mut out: Vec<(u32, u32)> = Vec::with_capacity(act.len() + 2);
         let ci = self.spec.ci;
         for &(i, k) in act {
             let p = &self.spec.pats[i as usize];
@@ -76,12 +108,27 @@ impl Model {
             }
         }
         out.sort_unstable();
-        out
+        Active { bits: 0, big: out }
+    }
+    /// Length of the longest active partial occurrence (0 if none).
+    pub fn active_maxk(&self, act: &Active) -> usize {
+        if self.small {
+            let mut bits = act.bits;
+            let mut mx = 0;
+            while bits != 0 {
+                let p = bits.trailing_zeros() as usize;
+                mx = mx.max(p % self.l);
+                bits &= bits - 1;
+            }
+            mx
+        } else {
+            act.big.iter().map(|x| x.1 as usize).max().unwrap_or(0)
+        }
     }
     /// The same set computed from scratch from its definition (used to
     /// cross-check the incremental computation).
     pub fn active_scratch(&self, w: &[u8], anchored: bool) -> Active {
-        let mut out: Active = vec![];
+        let mut out: Vec<(u32, u32)> = vec![];
         let ci = self.spec.ci;
         for (i, p) in self.spec.pats.iter().enumerate() {
             for k in 1..p.len() {
@@ -94,7 +141,14 @@ impl Model {
             }
         }
         out.sort_unstable();
-        out
+        if self.small {
+            let mut bits = 0u128;
+            for (i, k) in out {
+                bits |= 1u128 << (i as usize * self.l + k as usize);
+            }
+            return Active { bits, big: Vec::new() };
+        }
+        Active { bits: 0, big: out }
     }
     fn clamp(&self, consumed: usize, anchored: bool) -> usize {
         if anchored {
@@ -105,7 +159,20 @@ impl Model {
     }
 }
 
-pub type Active = Vec<(u32, u32)>;
+#[derive(Clone, PartialEq, Eq, Hash, Default, Debug)]
+pub struct Active {
+    bits: u128,
+    big: Vec<(u32, u32)>,
+}
+
+impl Active {
+    pub fn new() -> Active {
+        Active::default()
+    }
+    pub fn is_empty(&self) -> bool {
+        self.bits == 0 && self.big.is_empty()
+    }
+}
 
 #[derive(Clone, PartialEq, Eq, Hash)]
 enum Verdict {
@@ -213,7 +280,7 @@ pub fn explore_find<A: Automaton>(
             Some((p, s, e)) => {
                 // the answer can still be displaced only by an active partial
                 // occurrence that starts at or before it
-                if act.iter().any(|&(_, k)| pos - k as usize <= s) {
+                if pos - m.active_maxk(act) <= s {
                     Verdict::Open(p, pos - s, pos - e)
                 } else {
                     Verdict::Decided(p)
@@ -221,9 +288,9 @@ pub fn explore_find<A: Automaton>(
             }
         })
     };
-    let v0 = check(&[], &vec![], mat0)?;
-    seen.insert(Key { sid: start.as_u32(), done: done0, act: vec![], verdict: v0, consumed: 0 });
-    q.push_back((start, done0, mat0, vec![], vec![]));
+    let v0 = check(&[], &Active::new(), mat0)?;
+    seen.insert(Key { sid: start.as_u32(), done: done0, act: Active::new(), verdict: v0, consumed: 0 });
+    q.push_back((start, done0, mat0, vec![], Active::new()));
     st.add("states", 1);
     if done0 && earliest {
         // the search has returned on the empty haystack; every extension
@@ -232,20 +299,22 @@ pub fn explore_find<A: Automaton>(
         // checked below through the generic loop (done states are extended on
         // the reference side only).
     }
-    let mut groups: HashMap<(u32, u16), u8> = HashMap::new();
+    let mut gs: Vec<((u32, u16), u8)> = Vec::with_capacity(16);
     while let Some((sid, done, mat, w, act)) = q.pop_front() {
         if seen.len() > STATE_CAP {
             return Err(fail("cap", &w, "state cap hit".into()));
         }
-        groups.clear();
+        gs.clear();
         for b in 0..=255u8 {
             let nsid = if done { sid } else { a.next_state(anc, sid, b) };
-            groups.entry((nsid.as_u32(), m.abs(b))).or_insert(b);
+            let key = (nsid.as_u32(), m.abs(b));
+            if !gs.iter().any(|g| g.0 == key) {
+                gs.push((key, b));
+            }
         }
         st.add("transitions", 256);
-        let mut gs: Vec<((u32, u16), u8)> = groups.iter().map(|(k, v)| (*k, *v)).collect();
-        gs.sort_by_key(|g| g.1);
-        for (_, b) in gs {
+        for gi in 0..gs.len() {
+            let b = gs[gi].1;
             let mut w2 = w.clone();
             w2.push(b);
             let at = w.len();
@@ -360,23 +429,25 @@ pub fn explore_walk<A: Automaton>(
     let mut seen: HashSet<(u32, Active, usize)> = HashSet::new();
     let mut q = VecDeque::new();
     check(&[], start)?;
-    seen.insert((start.as_u32(), vec![], 0));
+    seen.insert((start.as_u32(), Active::new(), 0));
     q.push_back((start, Vec::<u8>::new(), Active::new()));
     st.add("states", 1);
-    let mut groups: HashMap<(u32, u16), u8> = HashMap::new();
+    let mut gs: Vec<((u32, u16), u8)> = Vec::with_capacity(16);
     while let Some((sid, w, act)) = q.pop_front() {
         if seen.len() > STATE_CAP {
             return Err(fail("cap", &w, "state cap hit".into()));
         }
-        groups.clear();
+        gs.clear();
         for b in 0..=255u8 {
             let n = a.next_state(anc, sid, b);
-            groups.entry((n.as_u32(), m.abs(b))).or_insert(b);
+            let key = (n.as_u32(), m.abs(b));
+            if !gs.iter().any(|g| g.0 == key) {
+                gs.push((key, b));
+            }
         }
         st.add("transitions", 256);
-        let mut gs: Vec<((u32, u16), u8)> = groups.iter().map(|(k, v)| (*k, *v)).collect();
-        gs.sort_by_key(|g| g.1);
-        for (_, b) in gs {
+        for gi in 0..gs.len() {
+            let b = gs[gi].1;
             let mut w2 = w.clone();
             w2.push(b);
             let n = a.next_state(anc, sid, b);
